@@ -56,6 +56,11 @@ pub fn encoding(data: &[u8], hint: Option<String>) -> Option<&'static Encoding> 
     Encoding::for_label(label.as_bytes())
 }
 
+#[cfg(feature = "xot_verif")]
+pub(crate) fn verif_xml_declaration(data: &[u8]) -> Option<String> {
+    xml_declaration(data)
+}
+
 pub(crate) fn decode(data: &[u8], hint: Option<String>) -> String {
     // fall back to UTF-8 if no (known) encoding could be determined
     let enc = encoding(data, hint).unwrap_or(encoding_rs::UTF_8);
